@@ -3,19 +3,23 @@
 From VekLib Require Import Ops ROps LinAlg RLin.
 From VekLib Require Import MachineInt.
 Require Import ZArith.
-From VekProofs Require Import C13_spec C13_proofs C13_rect C13_int C13_misc.
+From VekProofs Require Import C13_spec C13_proofs C13_rect C13_int C13_misc C13_intrect.
 
 Theorem C13_aabr : C13_aabr_stmt. Proof. exact C13_proofs.C13_aabr. Qed.
 Theorem C13_aabb : C13_aabb_stmt. Proof. exact C13_proofs.C13_aabb. Qed.
 Theorem C13_rect : C13_rect_stmt. Proof. exact C13_rect.C13_rect. Qed.
 Theorem C13_int : C13_int_stmt. Proof. exact C13_int.C13_int. Qed.
 Theorem C13_misc : C13_misc_stmt. Proof. exact C13_misc.C13_misc. Qed.
+(** rectangle predicates on machine integers of every width: the interval predicates when the corner sums are representable,
+    a panic (overflow checks on) as soon as one is not — even when an earlier comparison decides the answer *)
+Theorem C13_int_rect : C13_int_rect_stmt. Proof. exact C13_intrect.C13_int_rect. Qed.
 
 Print Assumptions C13_aabr.
 Print Assumptions C13_aabb.
 Print Assumptions C13_rect.
 Print Assumptions C13_int.
 Print Assumptions C13_misc.
+Print Assumptions C13_int_rect.
 
 (** the hypotheses of C13_int are satisfiable: an 8-bit signed box *)
 Example C13_int_example :
